@@ -95,7 +95,7 @@ func tokInput(buf []byte, alpha []string, k int, idx int64) []byte {
 
 // ---- (2) byte strings ------------------------------------------------------
 
-var bytes16 = []byte{0x00, 0xEF, 0xBB, 0xBF, 0x80, 0xFF, '"', '\'', '\\', '`', '/', '*', '\n', 'a', '0', '.'}
+var bytes16 = []byte{0x00, 0xEF, 0xBB, 0xBF, 0x80, 0xFF, '"', '\'', '\\', '`', '/', '*', '\n', '\r', 'a', '0', '.'}
 
 var bytes256 = func() []byte {
 	b := make([]byte, 256)
